@@ -13,6 +13,8 @@ pub type Sink = Arc<Mutex<Vec<(String, String)>>>;
 pub struct Cap {
     pub name: String,
     pub sink: Sink,
+    /// record the delivery, then report an error (must not affect any other appender)
+    pub fail: bool,
 }
 
 impl Append for Cap {
@@ -21,6 +23,9 @@ impl Append for Cap {
             .lock()
             .unwrap()
             .push((self.name.clone(), format!("{}", record.args())));
+        if self.fail {
+            anyhow::bail!("verif: scripted appender failure in {}", self.name);
+        }
         Ok(())
     }
     fn flush(&self) {}
@@ -65,13 +70,19 @@ pub fn loggers_of(cfg: &LCfg) -> Vec<CLogger> {
 /// Builds a log4rs Config from the logical configuration with capturing appenders
 /// (names are prefixed with `tag` in the sink so that generations can be told apart).
 pub fn build_config(cfg: &LCfg, sink: &Sink, tag: &str) -> Result<Config, String> {
+    build_config_failing(cfg, sink, tag, &[])
+}
+
+/// `failing[i]`: the i-th declared appender reports an error after recording the delivery.
+pub fn build_config_failing(cfg: &LCfg, sink: &Sink, tag: &str, failing: &[bool]) -> Result<Config, String> {
     let mut b = Config::builder();
-    for a in &cfg.appenders {
+    for (i, a) in cfg.appenders.iter().enumerate() {
         b = b.appender(Appender::builder().build(
             a.clone(),
             Box::new(Cap {
                 name: format!("{}{}", tag, a),
                 sink: sink.clone(),
+                fail: failing.get(i).copied().unwrap_or(false),
             }),
         ));
     }
